@@ -186,7 +186,7 @@ func (e *Engine) runUnits(names []string, opts SolveOpts) []*UnitResult {
 			r := e.buildUnit(n)
 			mu.Unlock()
 			if r.Err == nil && r.VC != nil {
-				solveUnit(r.VC, opts)
+				r.Flags = solveUnit(r.VC, opts)
 			}
 			results[i] = r
 		}(i, n)
